@@ -188,7 +188,10 @@ pub fn pristine_walk(mfd: i32, comps: &[&[u8]]) -> Result<i32, i32> {
 /// base itself -- "self" -- is a link we do want to follow)
 pub fn pristine_walk2(mfd: i32, comps: &[&[u8]], all_intermediate: usize) -> Result<i32, i32> {
     let mut cur = openat_raw(mfd, b".", libc::O_PATH | libc::O_DIRECTORY, 0)?;
-    let last = comps.iter().rposition(|c| !c.is_empty() && *c != b".").unwrap_or(0);
+    // Only a link that is literally the last component is "trailing": with a
+    // trailing "/" or "/." the kernel (and the library) treat the named entry as
+    // an intermediate component and walk through it.
+    let last = if comps.last().map(|c| !c.is_empty() && *c != b".").unwrap_or(false) { comps.len() - 1 } else { usize::MAX };
     for (i, c) in comps.iter().enumerate() {
         if c.is_empty() || *c == b"." {
             continue;
@@ -395,7 +398,13 @@ pub fn child(case: &Case, kcfg: Kcfg) -> Report {
                 };
                 // what following the final link yields on the pristine view (oracle for open_follow)
                 let follow_id: Option<Result<Ident, i32>> = if hostile.is_none() && !has_dotdot && comps.len() >= 1 && !has_create(ps.flags) {
-                    let (par, last) = comps.split_at(comps.len() - 1);
+                    // "link/" names the link with a directory requirement: the trailing
+                    // slashes are not components of their own
+                    let mut fc = comps.clone();
+                    while fc.len() > 1 && fc.last().map(|c| c.is_empty()).unwrap_or(false) {
+                        fc.pop();
+                    }
+                    let (par, last) = fc.split_at(fc.len() - 1);
                     match pristine_walk2(basefd, par, 0) {
                         Ok(pf) => {
                             let mut fl = ps.flags;
